@@ -602,3 +602,14 @@ pub fn random_program(rng: &mut Rng, inject: u8) -> Program {
     // clean random programs may carry Deprecated / BrokenDocLink warnings)
     Program { template: "random", files, class: if extra.is_empty() { Class::Clean } else { Class::Error }, codes: vec![], lints: vec![] }
 }
+
+/// A Slice file that declares no module: legal, and nothing of it reaches the generators.
+pub fn blank_text(rng: &mut Rng) -> String {
+    match rng.below(5) {
+        0 => String::new(),
+        1 => "// nothing here yet\n".into(),
+        2 => "\n\n   \n".into(),
+        3 => "#define SOMETHING\n".into(),
+        _ => "#if NEVER_DEFINED\nmodule Hidden\nstruct H {}\n#endif\n".into(),
+    }
+}
